@@ -443,3 +443,5 @@ SUBS = [
     Sub("method", lambda tier: method_cases(tier), check_method, quick=800, thorough=5000),
     Sub("collection", lambda tier: collection_cases(tier), check_collection, quick=300, thorough=2000),
 ]
+
+RULE += ' Also: bins given as a selection (slice / index subset) of a StaticBinning that was already used and inspected; multi-dimensional data and weights in C, Fortran and transposed-view memory layouts; fixed-width / integer / pretty binnings with values on, just below and just above their real edges.'
